@@ -47,11 +47,6 @@ def Sem.step (s : Sem) : SemOp → Sem × SemObs
 
 def Sem.free (s : Sem) : Nat := s.cap - s.used
 
-def Sem.run (s : Sem) : List SemOp → Sem × List SemObs
-  | [] => (s, [])
-  | op :: ops =>
-    ((Sem.run (s.step op).1 ops).1, (s.step op).2 :: (Sem.run (s.step op).1 ops).2)
-
 /-! ## 2. concurrency IR, interleaving semantics -/
 
 inductive Instr where
